@@ -64,12 +64,26 @@ def build(case, log):
 
 def run_case(job):
     import oqupy
-    case, method = job
+    case, method = job[0], job[1]
+    warm = len(job) > 2 and job[2]
     n = case["n"]
     log = []
     out = []
     try:
         mfs, rhos, a0, dt, t0 = build(case, log)
+        if warm:
+            # the same system objects were used before, with another time step (a time-step convergence check is the
+            # everyday reason): nothing of that earlier use may survive in them
+            if method == "mftempo":
+                corr = probes.make_probe_sd(probes.probe_weights(1, 8), 2 * dt)
+                wb = [oqupy.Bath(np.zeros((r.shape[0], r.shape[0])), corr) for r in rhos]
+                wp = oqupy.TempoParameters(dt=2 * dt, epsrel=1e-14, dkmax=1, subdiv_limit=None)
+                oqupy.MeanFieldTempo(mfs, wb, wp, [r.copy() for r in rhos], a0, t0).compute(
+                    t0 + 2 * dt + dt / 4, progress_type="silent")
+            else:
+                oqupy.compute_dynamics_with_field(mfs, a0, dt=2 * dt, num_steps=1,
+                                                  initial_state_list=[r.copy() for r in rhos], start_time=t0,
+                                                  subdiv_limit=None, progress_type="silent")
         log.clear()
         if method == "mftempo":
             corr = probes.make_probe_sd(probes.probe_weights(1, 8), dt)
@@ -238,14 +252,16 @@ def run(ctx):
                                "A0Set": "{<<%s,%s>>, <<0,%s>>}" % (sc(1), sc(-0.5), sc(0.25)),
                                "SysSet": sysset, "Emit": "TRUE"})
         cases += r.cases
-    jobs = [(c, m) for c in cases for m in ("mftempo", "cdwf", "cdwf-final")]
+    jobs = [(c, m, False) for c in cases for m in ("mftempo", "cdwf", "cdwf-final")]
+    jobs += [(c, m, True) for i, c in enumerate(cases) if i % 3 == 0 for m in ("mftempo", "cdwf")]
     res = core.pmap(run_case, jobs, chunksize=4)
-    for (c, m), mm in zip(jobs, res):
+    for (c, m, w), mm in zip(jobs, res):
+        m = m + ("+reused-system" if w else "")
         cid = {"method": m, "dt": c["dt"] / SC, "t0": c["t0"] / SC, "n": c["n"], "coef": [x / SC for x in c["coef"]],
                "a0": [x / SC for x in c["a0"]], "systems": [[s[0], s[1]] for s in c["sys"]]}
         ctx.case(cid, nontrivial=True)
         for x in mm:
-            ctx.violation("C09:%s:%s" % (m, x["what"]), "%s: %s" % (cid, x), {"case": c, "method": m})
+            ctx.violation("C09:%s:%s" % (m, x["what"]), "%s: %s" % (cid, x), {"case": c, "method": m.split("+")[0], "warm": w})
     ajobs = [(ctx.seed, t0, ns, km) for t0 in (0.0, 1.0) for ns in (1, 2) for km in ((None, 2) if quick else (None, 1, 2, 3))]
     for j, mm in zip(ajobs, core.pmap(agreement_job, ajobs)):
         ctx.case({"agreement": {"t0": j[1], "systems": j[2], "dkmax": j[3]}}, nontrivial=True)
@@ -276,7 +292,7 @@ def replay(ctx, rep):
     if "agreement" in c:
         mm = agreement_job(tuple(c["agreement"]))
     else:
-        mm = run_case((c["case"], c["method"]))
+        mm = run_case((c["case"], c["method"], c.get("warm", False)))
     ctx.case({"replay": True})
     for x in mm:
         ctx.violation("C09:replay:" + x["what"], str(x), c)
